@@ -44,7 +44,7 @@ def main(argv=None):
                      f"./check {pid} --tier {args.tier}")
     try:
         mod.run(run, only=args.only)
-        return run.finish()
+        return run.finish(check_lock=(args.only != 'bounded'))
     except Exception as e:  # noqa: BLE001
         return report.crash(pid, e)
 
